@@ -45,7 +45,7 @@ def run_prop(run, scr, tier, seed, prop, e1=None, diff=(), diff_load=(2, 8), ext
         if r['verdict'] == 'mismatch':
             mism.append(r)
         elif r['verdict'] == 'refused':
-            if r['name'].startswith('hint_bit_unpack'):
+            if r['name'].startswith(('hint_bit_unpack', 'hint_bit_pack')):
                 # the loop lemmas need the source-level loop structure (Index / First); a restructured decoder is decided by the Kani window harnesses instead
                 hint_fallback = True
             else:
@@ -78,7 +78,7 @@ def run_prop(run, scr, tier, seed, prop, e1=None, diff=(), diff_load=(2, 8), ext
         res8, msgs8 = _c08.native(scr)
         run.add_query({'name': 'native codec differential at the real (K, omega) (runs because the hint loop lemmas were refused)', 'engine': 'native (confirmation workload)', 'verdict': 'holds' if set(res8.values()) == {'pass'} else ('sat' if 'fail' in res8.values() else 'unknown'), 'detail': str(msgs8[:2])[:300]}, core=False)
         if 'fail' in res8.values():
-            mism.append({'name': 'hint_bit_unpack (restructured decoder): native codec differential against Algorithm 21', 'detail': str(msgs8[:3])[:300]})
+            mism.append({'name': 'hint_bit_unpack / hint_bit_pack (restructured hint codec): native codec differential against Algorithms 20 / 21', 'detail': str(msgs8[:3])[:300]})
     if e1:
         hs = e1
         if only:
